@@ -26,10 +26,11 @@ MCMaxP   == IF Universe = 1 THEN 6 ELSE 12
 \* operation sets per configuration
 Seeded == EnvInt("VERIF_SEEDS", 0)
 S2(x, e1, y, e2, p) == U(p, [b \in MCBase |-> IF b = x THEN e1 ELSE IF b = y THEN e2 ELSE 0])
-\* seeds: a square, a prefixed square, a dimensionless ratio and its square, a mixed quotient, an inverse
+\* seeds: a square, a prefixed square, a dimensionless ratio and its square, a mixed quotient, an inverse, a bare prefix
 MCSeeds == IF Seeded = 0 THEN {} ELSE
    {S2("b1", 2, "b2", 0, 0), S2("b1", 2, "b2", 0, 3), S2("b1", 1, "b2", -1, 0), S2("b1", 2, "b2", -2, 0),
-    S2("b3", 1, "b1", -1, 0), S2("b3", -1, "b1", 0, 0), S2("b1", 1, "b2", 0, 3)}
+    S2("b3", 1, "b1", -1, 0), S2("b3", -1, "b1", 0, 0), S2("b1", 1, "b2", 0, 3),
+    S2("b1", 0, "b2", 0, 6)}        \* mega * One: every factor cancelled, a prefix is left (its square root is kilo * One)
 \* foreign units (serialised by another process): a few shapes (quick) or every small one/two-factor unit
 MCQKinds == IF EnvInt("VERIF_KINDS", 4) = 1 THEN {0} ELSE IF EnvInt("VERIF_KINDS", 4) = 2 THEN {0, 1} ELSE {0, 1, 2, 3}
 MCForeignShapes ==
